@@ -323,7 +323,7 @@ def set_header_cfg(path, update):
 
 
 def graph_leg(ctx, module, model, gen_cfg, cfgobj, walks, walklen, allhist, sim_cfg=None, sim_num=0, sim_depth=0,
-              timeout=1500, sim_cfgobj=None, maxfail=500, variants=None):
+              timeout=1500, sim_cfgobj=None, maxfail=500, variants=None, variant_walks=None):
     """The standard L2 leg: dump + replay the bounded graph, then (optionally) spec-simulated deep behaviours.
     variants: further harness configurations (dict updates of cfgobj) under which the same graph / behaviours are replayed again."""
     edges = ctx.path(gen_cfg + ".edges")
@@ -331,10 +331,19 @@ def graph_leg(ctx, module, model, gen_cfg, cfgobj, walks, walklen, allhist, sim_
     r = replay(ctx, model, edges, walks=walks, walklen=walklen, allhist=allhist, maxfail=maxfail)
     log("  %s: %d edges / %d states; %d behaviours, %d steps, %d failures" % (
         gen_cfg, g["edges"], g["states"], r["behaviours"], r["steps"], r["failures_n"]))
+    vfail = vbeh = 0
     for v in variants or []:
         set_header_cfg(edges, v)
-        rv = replay(ctx, model, edges, walks=walks, walklen=walklen, allhist=allhist, maxfail=maxfail)
-        log("    variant %s: %d behaviours, %d failures" % (json.dumps(v), rv["behaviours"], rv["failures_n"]))
+        if variant_walks is None:
+            rv = replay(ctx, model, edges, walks=walks, walklen=walklen, allhist=allhist, maxfail=maxfail)
+        else:       # many variants: the transition cover (+ variant_walks walks) only
+            rv = replay(ctx, model, edges, walks=variant_walks, walklen=walklen, allhist=0, maxfail=maxfail)
+        vfail += rv["failures_n"]
+        vbeh += rv["behaviours"]
+        if len(variants) <= 4:
+            log("    variant %s: %d behaviours, %d failures" % (json.dumps(v), rv["behaviours"], rv["failures_n"]))
+    if variants and len(variants) > 4:
+        log("    %d variants (%s ... %s): %d behaviours, %d failures" % (len(variants), json.dumps(variants[0]), json.dumps(variants[-1]), vbeh, vfail))
     os.remove(edges)
     if sim_cfg and sim_num:
         tr = ctx.path(sim_cfg + ".traces")
@@ -342,7 +351,7 @@ def graph_leg(ctx, module, model, gen_cfg, cfgobj, walks, walklen, allhist, sim_
         r2 = replay_traces(ctx, model, tr, maxfail=maxfail)
         log("  %s: %d simulated behaviours of depth <=%d (%d steps); %d failures" % (
             sim_cfg, s["traces"], sim_depth, s["steps"], r2["failures_n"]))
-        for v in variants or []:
+        for v in ((variants or [])[::max(1, len(variants or []) // 6)] if variant_walks is not None else (variants or [])):
             set_header_cfg(tr, v)
             rv = replay_traces(ctx, model, tr, maxfail=maxfail)
             log("    variant %s: %d failures" % (json.dumps(v), rv["failures_n"]))
